@@ -38,21 +38,59 @@ SOURCE = {'repoURL': 'http://example.org/r.git', 'branchOrTag': 'main', 'commitI
           'commitMsg': 'msg', 'authorName': 'A', 'committerName': 'C', 'authorEmail': 'a@x', 'committerEmail': 'c@x'}
 
 
+# `reporting.rebenchdb.repo_url`: deliberately not the URL the working copy reports
+CFG_REPO_URL = 'https://cfg.example.org/configured/override.git'
+
+
 class _Resp(object):
-    def __init__(self, header=None):
+    """what `urlopen` returns: the surface of http.client.HTTPResponse / urllib.response.addinfourl
+    that client code may touch (context manager, status / code / getcode(), read(), headers …)"""
+
+    def __init__(self, header=None, status=200, url=None, body=b'{"ok":true}'):
+        import email.message
         self._header = header
+        self.status = status
+        self.code = status
+        self.reason = self.msg = {200: 'OK', 201: 'Created', 202: 'Accepted', 204: 'No Content'}.get(status, 'OK')
+        self.url = url
+        self.version = 11
+        self.closed = False
+        self._body = b'' if status == 204 else body
+        self.headers = email.message.Message()
+        self.headers['Content-Length'] = str(len(self._body))
+        if header is not None:
+            self.headers['X-ReBenchDB-Result-API-Version'] = header
 
     def __enter__(self):
         return self
 
     def __exit__(self, *a):
+        self.close()
         return False
 
-    def read(self):
-        return b'{"ok":true}'
+    def close(self):
+        self.closed = True
 
-    def getheader(self, _name):
-        return self._header
+    def read(self, amt=None):
+        b, self._body = self._body, b''
+        return b
+
+    def getcode(self):
+        return self.status
+
+    def geturl(self):
+        return self.url
+
+    def info(self):
+        return self.headers
+
+    def getheader(self, name, default=None):
+        if name == 'X-ReBenchDB-Result-API-Version':
+            return self._header
+        return self.headers.get(name, default)
+
+    def getheaders(self):
+        return list(self.headers.items())
 
 
 def raise_for(kind, url, status=None):
@@ -118,7 +156,9 @@ class World(object):
         rec['kind'] = kind
         self.point['attempts'].append(rec)
         if kind == 'ok':
-            return _Resp()
+            # the server acknowledges: any 2xx is an acknowledgement
+            rec['status'] = self.statuses.get('ok', 200)
+            return _Resp(status=rec['status'], url=req.full_url)
         raise_for(kind, req.full_url, self.statuses.get(kind))
 
     def fire_hook(self):
@@ -189,12 +229,13 @@ class _Handler(BaseHTTPRequestHandler):
             w.points.append(w.point)
         w.fire_hook()
         w.point['attempts'].append(rec)
-        status = {'ok': 200, '5xx': self.server.statuses.get('5xx', 503),
+        status = {'ok': self.server.statuses.get('ok', 200), '5xx': self.server.statuses.get('5xx', 503),
                   '4xx': self.server.statuses.get('4xx', 400)}[kind]
         self.send_response(status)
-        self.send_header('Content-Length', '2')
+        self.send_header('Content-Length', '0' if status == 204 else '2')
         self.end_headers()
-        self.wfile.write(b'ok')
+        if status != 204:
+            self.wfile.write(b'ok')
 
     def log_message(self, *a):
         pass
@@ -232,7 +273,7 @@ def raw_config(workdir, n_runs, url):
     key = n_runs   # the first work directory becomes the configuration's directory for all
     if key not in _raw_cache:
         cfg = {'default_experiment': 'T', 'default_data_file': 't.data',
-               'reporting': {'rebenchdb': {'db_url': url, 'repo_url': SOURCE['repoURL'],
+               'reporting': {'rebenchdb': {'db_url': url, 'repo_url': CFG_REPO_URL,
                                            'project_name': PROJECT, 'record_all': True}},
                'benchmark_suites': {'S': {'gauge_adapter': 'RebenchLog', 'command': 'h %(benchmark)s',
                                           'benchmarks': ['B%d' % i for i in range(n_runs)]}},
@@ -258,7 +299,7 @@ def options(extra):
 class Session(object):
     """one ReBench session's persistence objects, built by the real code"""
 
-    def __init__(self, workdir, n_runs, data_file, url, with_db=True):
+    def __init__(self, workdir, n_runs, data_file, url, with_db=True, branch=None):
         self.ui = TestDummyUI()
         self.ds = P.DataStore(self.ui)
         created = []
@@ -270,7 +311,7 @@ class Session(object):
             created.append(obj)
         cls.__init__ = spy_init
         try:
-            opts = options([] if with_db else ['-R'])
+            opts = options(([] if with_db else ['-R']) + (['--branch=' + branch] if branch else []))
             self.cnf = Configurator(raw_config(workdir, n_runs, url), self.ds, self.ui, opts, data_file=data_file)
             runs = list(self.cnf.get_runs())
         finally:
